@@ -70,6 +70,9 @@ func (vc *FnVC) obAssert(kind, key, text, cond string, pos token.Pos) {
 
 func (vc *FnVC) fnName() string {
 	if vc.fn == nil {
+		if vc.fc != nil && vc.fc.MathLemma {
+			return vc.lemmaName()
+		}
 		return "?"
 	}
 	return fnDisplayName(vc.fn)
@@ -367,6 +370,10 @@ func (vc *FnVC) setupEntry() {
 			vc.decl("allocated0", "(declare-fun allocated0 (Int) Bool)")
 			vc.fact(fmt.Sprintf("(=> (> %s 0) (allocated0 %s))", n, n))
 		}
+		if _, isSl := p.Type().Underlying().(*types.Slice); isSl {
+			vc.decl("allocated0", "(declare-fun allocated0 (Int) Bool)")
+			vc.fact(fmt.Sprintf("(=> (> (s.arr %s) 0) (allocated0 (s.arr %s)))", n, n))
+		}
 		name := p.Name()
 		if vc.fc != nil && i < len(vc.fc.Params) && vc.fc.Params[i] != "_" {
 			if vc.fc.Params[i] != name {
@@ -441,6 +448,9 @@ func (vc *FnVC) Translate() {
 			vc.fact(s)
 		}
 		vc.elabModifies(env)
+		for _, u := range fc.Uses {
+			vc.useLemma(u)
+		}
 	}
 	// vacuity probe: preconditions satisfiable
 	pre := vc.ob("presat", "requires-satisfiable", "conjunction of requires is satisfiable", "false", fn.Pos())
@@ -896,6 +906,20 @@ func (vc *FnVC) loopHeader(h *ssa.BasicBlock, li *loopInfo, fwdPreds []*ssa.Basi
 				continue
 			}
 			vc.fact(fmt.Sprintf("(=> %s %s)", rn, s))
+		}
+		for _, u := range li.spec.Uses {
+			if s, ok := vc.useLemmaInstance(u, env); ok {
+				vc.fact(fmt.Sprintf("(=> %s %s)", rn, s))
+			}
+		}
+		for _, inv := range li.spec.Assumes {
+			s, err := env.ElabBool(inv.Expr)
+			if err != nil {
+				vc.errorf("loop %d assume-invariant %q: %v", li.ord, inv.Text, err)
+				continue
+			}
+			vc.fact(fmt.Sprintf("(=> %s %s)", rn, s))
+			vc.assume(fmt.Sprintf("UNCHECKED loop fact in %s loop %d: %s", vc.fnName(), li.ord, inv.Text))
 		}
 	}
 	// cover: loop body reachable under the invariant
